@@ -18,7 +18,8 @@ RULE = ("a case is a typed list or dict field (item/key/value families with conc
         "results must stay typed (they must reject an invalid item); non-trivial = >= 2 operations compared with "
         ">= 1 mutation; distinct = distinct (field, history)")
 REQUIRED = ("config_item_lists", "ops_compared", "list_ops_compared", "dict_ops_compared", "typed_result_probes", "op:setslice", "op:ior",
-            "op:setdefault", "op:update", "op:extend", "op:iadd", "iter:iter", "iter:proxy_other", "iter:mapping")
+            "op:setdefault", "op:update", "op:extend", "op:iadd", "iter:iter", "iter:proxy_other", "iter:mapping",
+            "update:proxy_same+kwargs", "update:proxy_other+kwargs", "update:pairs+kwargs")
 ASSUMPTIONS = ["operations the builtin rejects are skipped; operations with an argument the model labels invalid "
                "must raise and are followed by a resynchronisation of the model (partial application of multi-element "
                "operations is not part of this property)"]
@@ -113,7 +114,7 @@ def generate(rng, ctx):
         vf = _mkfield(rng, rng.choice(ITEM_FAMS)) if rng.random() < 0.9 or kf is None else None
         f = {"kind": "field", "key": "c", "family": "dict", "params": {}, "keyf": kf, "valf": vf}
         kinds = ["dict", "pairs", "pairs_iter", "kwargs", "dict+kwargs", "none", "proxy_same", "proxy_other", "mapping",
-                 "pairs_tuple"]
+                 "pairs_tuple", "proxy_same+kwargs", "proxy_other+kwargs", "pairs+kwargs", "mapping+kwargs", "pairs_iter+kwargs"]
         ops = []
 
         def pairs(n):
@@ -581,9 +582,6 @@ def _dict_plan(cc, kind, pairs):
         return real
     if kind == "none":
         return []
-    if kind == "dict+kwargs":
-        half = len(real) // 2
-        return list(dict(real[:half]).items()) + list(dict(real[half:]).items())
     return list(dict(real).items())
 
 
@@ -640,17 +638,24 @@ def _dict_op(cc, cfg, f, proxy, ref, op, res):
         it = op["it"]
         pairs = it["pairs"]
         kind = it["kind"]
-        if kind in ("kwargs", "dict+kwargs") and not all(isinstance(k, str) for k, _ in pairs):
+        base = kind[:-7] if kind.endswith("+kwargs") else kind
+        half = len(pairs) // 2 if kind.endswith("+kwargs") else len(pairs)
+        if kind == "kwargs" and not all(isinstance(k, str) for k, _ in pairs):
             return None
+        if kind.endswith("+kwargs") and not all(isinstance(k, str) for k, _ in pairs[half:]):
+            return None
+        pos_it = {"kind": base, "pairs": pairs[:half]}
         if not all(_hashable(spec.realize(cc, k)) for k, _ in pairs):
             return None
         prebuilt = None
-        if kind == "proxy_other":
+        if base == "proxy_other":
             try:
-                prebuilt = _dict_arg(cc, cfg, f, it)
+                prebuilt = _dict_arg(cc, cfg, f, pos_it)
             except Exception:
                 return None
-            plan = list(plain(prebuilt).items())
+            plan = list(plain(prebuilt).items()) + _dict_plan(cc, "dict", pairs[half:])
+        elif kind.endswith("+kwargs"):
+            plan = _dict_plan(cc, base, pairs[:half]) + _dict_plan(cc, "dict", pairs[half:])
         else:
             plan = _dict_plan(cc, kind, pairs)
         ok1, unk1, nks = _labels(kf, [k for k, _ in plan])
@@ -658,7 +663,7 @@ def _dict_op(cc, cfg, f, proxy, ref, op, res):
         if unk1 or unk2:
             return None
         allok = ok1 and ok2
-        if not allok and kind == "proxy_same":
+        if not allok and base == "proxy_same":
             return None
         if allok and not all(_hashable(k) for k in nks):
             return None
@@ -676,9 +681,9 @@ def _dict_op(cc, cfg, f, proxy, ref, op, res):
                 result = proxy | (prebuilt if prebuilt is not None else _dict_arg(cc, cfg, f, it))
             elif kind == "kwargs":
                 result = proxy.update(**{k: spec.realize(cc, v) for k, v in pairs})
-            elif kind == "dict+kwargs":
-                half = len(pairs) // 2
-                result = proxy.update({spec.realize(cc, k): spec.realize(cc, v) for k, v in pairs[:half]},
+            elif kind.endswith("+kwargs"):
+                res.count("update:" + kind)
+                result = proxy.update(prebuilt if prebuilt is not None else _dict_arg(cc, cfg, f, pos_it),
                                       **{k: spec.realize(cc, v) for k, v in pairs[half:]})
             elif kind == "none":
                 result = proxy.update()
